@@ -79,6 +79,10 @@ type kzBlock struct {
 	PreLen      uint64
 	CkBits      int
 	DataBit     int // first bit of entropy-coded data (after mode/len/checksum)
+	// Override, when non-nil, replaces the payload in serialize() (forged blocks)
+	Override     []byte
+	OverrideBits int
+	ForceLW      int // when > 0, the length-width field to emit
 }
 
 type kzStream struct {
@@ -218,6 +222,27 @@ func (ks *kzStream) serialize(fixHeaderChecksum bool) []byte {
 		w.bits(ck, 24)
 	}
 	for _, b := range ks.Blocks {
+		if b.Override != nil {
+			lw := 3
+			for lw < 34 && b.OverrideBits>>uint(lw) != 0 {
+				lw++
+			}
+			// same rule as the format: lw = log2(bytes)+4 for >= 8 bits
+			if b.OverrideBits >= 8 {
+				lw = 0
+				for v := b.OverrideBits >> 3; v > 0; v >>= 1 {
+					lw++
+				}
+				lw += 3
+			}
+			if b.ForceLW > 0 {
+				lw = b.ForceLW
+			}
+			w.bits(uint64(lw-3), 5)
+			w.bits(uint64(b.OverrideBits), lw)
+			w.copyBits(b.Override, 0, b.OverrideBits)
+			continue
+		}
 		w.bits(uint64(b.LenWidth-3), 5)
 		w.bits(uint64(b.PayloadBits), b.LenWidth)
 		w.copyBits(ks.Raw, b.PayloadBit, b.PayloadBits)
@@ -244,4 +269,12 @@ func kzSelfCheck(raw []byte) error {
 		return errors.New("kzfmt self-check: re-serialised stream differs")
 	}
 	return nil
+}
+
+// payload returns a copy of block i's payload bits, left aligned in a fresh byte slice.
+func (ks *kzStream) payload(i int) ([]byte, int) {
+	b := ks.Blocks[i]
+	w := &bitWriter{}
+	w.copyBits(ks.Raw, b.PayloadBit, b.PayloadBits)
+	return w.b, b.PayloadBits
 }
